@@ -425,3 +425,46 @@ def rule_adjoint_distinct(ctx):
                 r.ok(q, sample={"class": c.name, "adjoint": "conjugates" if conj else "differs from _matvec"})
     r.floor(n, 1, "LinearOperator subclasses implementing both _matvec and _rmatvec")
     return r
+
+
+def rule_arm_option_agreement(ctx):
+    r = RuleResult(
+        "arm-option-agreement",
+        "a solver front end that computes the same result in two arms of one if/else (dense vs iterative route) honours its selection "
+        "options in both: a selection parameter (k, which, sigma ...) that one arm reads — directly or in the statements that follow on "
+        "that arm only — is read on the other arm too; otherwise the two routes return different parts of the spectrum for the same call",
+    )
+    n = 0
+    for f in ctx.prog.all_functions(nested=False):
+        if f.is_alias or isinstance(f.node, ast.Lambda) or f.module.name not in LINALG_MODULES:
+            continue
+        sel = [p_ for p_ in f.params if p_ in ("k", "which", "sigma")]
+        if not sel:
+            continue
+        for st in f.node.body:
+            if not (isinstance(st, ast.If) and st.orelse and not (len(st.orelse) == 1 and isinstance(st.orelse[0], ast.If))):
+                continue
+
+            def assigned(stmts):
+                return {y.id for s_ in stmts for a in ast.walk(s_) if isinstance(a, ast.Assign) for t in a.targets for y in ast.walk(t) if isinstance(y, ast.Name)}
+
+            common = assigned(st.body) & assigned(st.orelse)
+            if not common:
+                continue
+            # both arms must end normally (no return / raise) for the comparison to be about one result
+            if any(isinstance(x, (ast.Return, ast.Raise)) for s_ in st.body + st.orelse for x in ast.walk(s_)):
+                continue
+            n += 1
+            for p_ in sel:
+                ua = any(isinstance(y, ast.Name) and y.id == p_ for s_ in st.body for y in ast.walk(s_))
+                ub = any(isinstance(y, ast.Name) and y.id == p_ for s_ in st.orelse for y in ast.walk(s_))
+                q = f"{f.qualname}[{p_}]"
+                if ua != ub:
+                    arm = "else" if ua else "if"
+                    r.bad(Finding("arm-option-agreement", f.qualname,
+                                  f"`{p_}` is honoured in one arm of `if {src_of(st.test)[:50]}` only (the {arm}-arm never reads it) although both arms compute {sorted(common)[:3]}: "
+                                  "the two routes select different eigenpairs for the same call", where=f"{f.module.relpath}:{st.lineno}", operand=p_))
+                else:
+                    r.ok(q, sample={"function": f.qualname, "option": p_, "arms": "both" if ua else "neither (applied outside the branch)"}, nontrivial=ua)
+    r.floor(n, 1, "two-armed result computations in the solver front ends")
+    return r
